@@ -141,8 +141,10 @@ func rewardsProfile() Profile {
 	p.ChRates = []string{"1", "1", "0.5", "0.99"}
 	p.Weights_ = []string{"0.01", "0.5", "1", "5"}
 	p.SettleBeforeValueChange = true
+	p.SettleSlashPct = 65
 	p.NAssetsMin = 1
 	p.InvalidPct = 3
+	p.Weights[GRedelThenExit] = 3
 	return p
 }
 
